@@ -841,7 +841,33 @@ class _OpaqueGenerator:
         return [(st, Opaque('generator', self_val))]
 
 
-REG['sqlparse.sql.IdentifierList.get_identifiers'] = _OpaqueGenerator
+class _GetIdentifiersCallsite:
+    """call-site form of IdentifierList.get_identifiers(): on a receiver whose children list is explicit (the C13 shapes)
+    the generator body is executed in place and the yielded values are collected in order (a generator is the function from
+    its input sequence to the sequence it yields); on any other receiver an opaque iterable"""
+
+    @staticmethod
+    def model(ex, self_val, args, kw, st):
+        if not (isinstance(self_val, Rec) and st.objs[self_val.oid].get('__shape__') is True):
+            return _OpaqueGenerator.model(ex, self_val, args, kw, st)
+        from pyvc.models import call_repo_inline, repo_fn_node
+        q = 'sqlparse.sql.IdentifierList.get_identifiers'
+        saved = getattr(ex, 'on_yield_hook', None)
+        key = '__yields__%d' % len([k for k in st.ghost if str(k).startswith('__yields__')])
+        st.ghost[key] = ()
+        ex.on_yield_hook = lambda s_, v_: s_.ghost.__setitem__(key, s_.ghost.get(key, ()) + (v_,))
+        try:
+            res = call_repo_inline(ex, q, repo_fn_node(q), self_val, args, kw, st)
+        finally:
+            ex.on_yield_hook = saved
+        out = []
+        for s_, _v in res:
+            ys = s_.ghost.pop(key, ())
+            out.append((s_, ex.new_list(s_, [('el', y) for y in ys])))
+        return out
+
+
+REG['sqlparse.sql.IdentifierList.get_identifiers'] = _GetIdentifiersCallsite
 
 
 def _opt_int(name):
@@ -1427,3 +1453,130 @@ REG.add('sqlparse.sql.Token.is_child_of', 'other is another token', is_child_of_
 ANCESTRY_CASES += [('sqlparse.sql.Token.is_child_of', 'other is the parent'),
                    ('sqlparse.sql.Token.is_child_of', 'other is a farther ancestor'),
                    ('sqlparse.sql.Token.is_child_of', 'other is another token')]
+
+
+
+# --------------------------------------------------------------------------------- Function.get_parameters on the shapes of C13
+
+def _mk_node(ex, st, cls, name, items, parent=None):
+    """a group node of class `cls` with explicit children (records, or ('ws', tag) whitespace runs)"""
+    g = _mk_identifier(ex, st, parent if parent is not None else Opaque('some-parent'), name, items)
+    st.objs[g.oid]['CLS'] = ex.W.cls_const[cls]
+    return g
+
+
+def _mk_argument(ex, st, name):
+    """one written argument: a node of one of the argument classes, or a literal / wildcard / NULL leaf"""
+    W = ex.W
+    sql = W.sql
+    T = W.T
+    z = fresh(name + '_cls', W.CLS)
+    arg_classes = (sql.Function, sql.Identifier, sql.TypedLiteral, sql.Operation, sql.Comparison, sql.Case, sql.Parenthesis)
+    txt = fresh(name + '_txt', z3.StringSort())
+    st.assume(z3.Length(txt) >= 1)
+    isg = fresh(name + '_isg', z3.BoolSort())
+    tt = fresh(name + '_tt', W.TT)
+    lits = [t for t in W.tt_objs if t in T.Literal] + [T.Wildcard]
+    # either a group of an argument class, or a leaf typed as a literal / wildcard
+    st.assume(z3.If(isg, z3.And(z3.Or(*[z == W.cls_const[k] for k in arg_classes]), tt == W.tt_none),
+                    z3.And(z == W.cls_const[sql.Token], z3.Or(*[tt == W.tt(t) for t in lits]))))
+    return ex.new_token(st, {'CLS': z, 'value': SStr(txt), 'TXT': SStr(txt), 'is_group': SBool(isg), 'ttype': STy(tt),
+                             'parent': None, 'is_whitespace': False, 'is_keyword': False, 'is_newline': False,
+                             'normalized': SStr(txt)})
+
+
+def make_function_shape(n_args):
+    def mk(ex, st):
+        W = ex.W
+        sql, T = W.sql, W.T
+        name = _mk_leaf(ex, st, None, 'fname', (T.Name,), name_leaf=True)
+        args = [_mk_argument(ex, st, 'arg%d' % i) for i in range(n_args)]
+        st.ghost['ARGS'] = tuple(args)
+        lp = _mk_leaf(ex, st, None, 'lp', (T.Punctuation,), value='(')
+        rp = _mk_leaf(ex, st, None, 'rp', (T.Punctuation,), value=')')
+        if n_args == 0:
+            inner = []
+        elif n_args == 1:
+            inner = [args[0]]
+        else:
+            items = []
+            for i, a in enumerate(args):
+                if i:
+                    items += [_mk_leaf(ex, st, None, 'comma%d' % i, (T.Punctuation,), value=','), ('ws', 'ws%d' % i)]
+                items.append(a)
+            inner = [lambda g: _mk_node(ex, st, sql.IdentifierList, 'arglist', items, g)]
+        paren = lambda g: _mk_node(ex, st, sql.Parenthesis, 'paren', [lp] + inner + [rp], g)
+        ident = lambda g: _mk_node(ex, st, sql.Identifier, 'fident', [name], g)
+        return _mk_node(ex, st, sql.Function, 'self', [ident, paren])
+    return mk
+
+
+C13_SHAPE_CASES = []
+for _n in (0, 1, 2, 3):
+    _ens = ['len(result) == %d' % _n] + ['result[%d] is ARGS[%d]' % (i, i) for i in range(_n)]
+    _ns = {'__doc__': 'C13 "a call f(a, b, ...) is a Function whose get_parameters() yields the written arguments": shape with '
+                      '%d argument(s), each a node of an argument class or a literal / wildcard leaf, separated by comma + '
+                      'whitespace; the result is exactly the argument nodes, in order' % _n,
+           'exec_class': HeapExec, 'params': {'self': make_function_shape(_n)}, 'requires': [], 'ensures': _ens,
+           'raises': [], 'serves': ['C13']}
+    REG.add('sqlparse.sql.Function.get_parameters', 'shape: %d arguments' % _n, type('c13_get_parameters', (), _ns))
+    C13_SHAPE_CASES.append(('sqlparse.sql.Function.get_parameters', 'shape: %d arguments' % _n))
+
+
+# --------------------------------------------------------------------------------- Case.get_cases on the shape of C13
+
+def _ws1(ex, st, name):
+    W = ex.W
+    tt = fresh(name + '_tt', W.TT)
+    st.assume(z3.Or(tt == W.tt(W.T.Whitespace), tt == W.tt(W.T.Newline)))
+    val = fresh(name + '_val', z3.StringSort())
+    st.assume(z3.Length(val) >= 1)
+    return ex.new_token(st, {'CLS': W.cls_const[W.sql.Token], 'value': SStr(val), 'TXT': SStr(val), 'is_group': False,
+                             'ttype': STy(tt), 'parent': None, 'is_whitespace': True, 'is_keyword': False,
+                             'is_newline': SBool(tt == W.tt(W.T.Newline)), 'normalized': SStr(val)})
+
+
+def make_case_shape(n_when, with_else):
+    def mk(ex, st):
+        W = ex.W
+        sql, T = W.sql, W.T
+        kw = lambda word, nm: _mk_leaf(ex, st, None, nm, (T.Keyword,), normalized=word)   # noqa: E731
+        items = [kw('CASE', 'kw_case')]
+        gh = {}
+        for i in range(n_when):
+            w, c, t, v = kw('WHEN', 'kw_when%d' % i), _mk_argument(ex, st, 'cond%d' % i), kw('THEN', 'kw_then%d' % i), \
+                _mk_argument(ex, st, 'val%d' % i)
+            gh.update({'WHEN%d' % i: w, 'COND%d' % i: c, 'THEN%d' % i: t, 'VAL%d' % i: v})
+            items += [_ws1(ex, st, 'wsa%d' % i), w, _ws1(ex, st, 'wsb%d' % i), c, _ws1(ex, st, 'wsc%d' % i), t,
+                      _ws1(ex, st, 'wsd%d' % i), v]
+        if with_else:
+            e, ev = kw('ELSE', 'kw_else'), _mk_argument(ex, st, 'elseval')
+            gh.update({'ELSE': e, 'ELSEVAL': ev})
+            items += [_ws1(ex, st, 'wse'), e, _ws1(ex, st, 'wsf'), ev]
+        items += [_ws1(ex, st, 'wsg'), kw('END', 'kw_end')]
+        st.ghost.update(gh)
+        return _mk_node(ex, st, sql.Case, 'self', items)
+    return mk
+
+
+def _case_ensures(n_when, with_else):
+    ens = ['len(result) == %d' % (n_when + (1 if with_else else 0))]
+    for i in range(n_when):
+        ens += ['len(result[%d][0]) == 2 and result[%d][0][0] is WHEN%d and result[%d][0][1] is COND%d' % (i, i, i, i, i),
+                'len(result[%d][1]) == 2 and result[%d][1][0] is THEN%d and result[%d][1][1] is VAL%d' % (i, i, i, i, i)]
+    if with_else:
+        j = n_when
+        ens += ['result[%d][0] is None' % j,
+                'len(result[%d][1]) == 2 and result[%d][1][0] is ELSE and result[%d][1][1] is ELSEVAL' % (j, j, j)]
+    return ens
+
+
+for _nw, _we in ((1, False), (1, True), (2, True)):
+    _case = 'shape: %d WHEN%s' % (_nw, ' + ELSE' if _we else '')
+    _ns = {'__doc__': 'C13 "Case.get_cases() yields the written WHEN/THEN/ELSE parts": CASE (WHEN c THEN v){%d}%s END with single '
+                      'whitespace tokens between; with skip_ws=True the result is [([WHEN, c], [THEN, v])...%s], the very '
+                      'nodes, in order' % (_nw, ' ELSE e' if _we else '', ', (None, [ELSE, e])' if _we else ''),
+           'exec_class': HeapExec, 'params': {'self': make_case_shape(_nw, _we), 'skip_ws': lambda ex, st: True},
+           'requires': [], 'ensures': _case_ensures(_nw, _we), 'raises': [], 'serves': ['C13']}
+    REG.add('sqlparse.sql.Case.get_cases', _case, type('c13_get_cases', (), _ns))
+    C13_SHAPE_CASES.append(('sqlparse.sql.Case.get_cases', _case))
